@@ -131,7 +131,7 @@ __CPROVER_decreases(prm.maxiter - iter)
 '''
 
 cg = Unit(
-    name='solver_cg', props=['C01', 'C15', 'C10'], replay='orchestration',
+    name='solver_cg', props=['C01', 'C05', 'C15', 'C10'], replay='orchestration',
     functions=['solver::cg<Backend>::operator()(A, P, rhs, x)'],
     desc='CG solve body: budget, reported residual is the norm of the carried residual vector / ||rhs||, x/r updates paired, '
          'workspace never read before written, zero rhs exit, converged guess returned unchanged, rhs/A never written',
